@@ -6,7 +6,7 @@ import numpy as np
 
 ID = 'C11'
 NSHARDS = dict(quick=4, thorough=8)
-BUDGET = dict(quick=0, thorough=5000)
+BUDGET = dict(quick=1200, thorough=12000)
 ANCHORS = ['numdifftools.core:Derivative._raise_error_if_any_is_complex',
            'numdifftools.finite_difference:LogRule._vstack',
            'numdifftools.finite_difference:LogRule._multicomplex_middle_name',
@@ -176,6 +176,14 @@ def run_case(case, ctx):
             if not np.any(x.imag):
                 x[0] += 0.1j
         cf = (1.0 + 0.5j) if what in ('complex_f', 'both') else 1.0
+        if 'seed' in case and rng.random() < 0.5:
+            # magnitude classes: a complex-valued function (or the imaginary part of x) that is tiny or huge is complex all the same
+            mag = float(10.0 ** rng.uniform(-28, 8))
+            ctx.count('complex_misuse_with_scaled_magnitude')
+            if what in ('complex_f', 'both'):
+                cf = cf * mag
+            if what in ('complex_x', 'both'):
+                x = x.real + 1j * x.imag * min(mag, 1.0)
         if cls == 'Derivative':
             f = lambda t: cf * np.exp(0.3 * t) + t * t
         elif cls == 'Jacobian':
